@@ -215,6 +215,19 @@ ImplApprox(k) ==
   /\ UNCHANGED <<obj, dir, arc, mmeta>>
 Approx(k) == ImplApprox(k) /\ UNCHANGED g /\ last' = [op |-> "approx", k |-> k, v |-> "-", f |-> "-", m |-> "-"]
 
+(* eko.approx at a scale a relative 1e-4 away from key k (all keys of one nf lie within 2e-8 of each other): *)
+(* with the default tolerances nothing is close; with rtol = 1e-3 the neighbourhood is the one of k itself   *)
+ImplApproxFar(k) ==
+  /\ obj.exists
+  /\ UNCHANGED arc2
+  /\ reply' = RNone
+  /\ UNCHANGED <<obj, dir, arc, mmeta>>
+ImplApproxWide(k) ==
+  /\ obj.exists
+  /\ UNCHANGED arc2
+  /\ reply' = ApproxOutcome(obj, k)
+  /\ UNCHANGED <<obj, dir, arc, mmeta>>
+
 (* eko.unload() *)
 ImplUnload ==
   /\ obj.exists
